@@ -186,6 +186,10 @@ def run(tier, work, replay=None):
              ("copy", "copy_", "fields", True), ("query", "_query", "fields", True), ("fooBar", "fooBaz", "fields", True), ("a", "b", "ops", True),
              ("_x", "x", "variables", False), ("_id", "id", "variables", False), ("a", "b", "variables", True), ("fooBar", "foo_bar", "variables", True),
              ("fooBar", "foo_bar", "variables", False), ("in", "in_", "variables", False),
+             # one variable whose PYTHON name equals a local of the generated method only after snake-casing / trimming
+             ("Query", "zz", "variables", True), ("QUERY", "zz", "variables", True), ("query_", "zz", "variables", True), ("_query", "zz", "variables", True),
+             ("Data", "zz", "variables", True), ("Variables", "zz", "variables", True), ("_response", "zz", "variables", True),
+             ("Kwargs", "zz", "variables", True), ("Self", "zz", "variables", True), ("Query", "zz", "variables", False), ("operationName", "zz", "variables", True),
              ("type", "match", "enum_default", True), ("case", "_", "enum_default", True), ("in", "None", "enum_default", True),
              ("name", "value", "enum_default", True), ("RED", "async", "enum_default", False), ("from", "type", "enum_default", True)]
     rnd.shuffle(cand)
@@ -196,15 +200,19 @@ def run(tier, work, replay=None):
                  "kw_suffix_pair": bool(keyword.iskeyword(a) and b == a + "_"),
                  "digit_after_underscores": bool(re.match(r"_+[0-9]", a) or re.match(r"_+[0-9]", b))}
         fate = o.get("fate")
+        sn, tr, rs = {"fields": (snake, True, True), "input": (snake, True, True), "ops": (True, False, False), "enum": (False, False, False),
+                      "variables": (snake, False, False), "enum_default": (False, False, False)}[scope]
+        pa = None
+        if scope not in ("enum", "enum_default"):
+            pa = json.loads(run_py(["-c", f"import json; from ariadne_codegen.utils import process_name as p; print(json.dumps([p({a!r}, convert_to_snake_case={sn}, trim_leading_underscore={tr}, handle_pydantic_resrved_field_names={rs}), p({b!r}, convert_to_snake_case={sn}, trim_leading_underscore={tr}, handle_pydantic_resrved_field_names={rs})]))"]).stdout.strip().splitlines()[-1])
+            # do the two names map to ONE Python name (the known silent-merge findings are about exactly those pairs)?
+            feats["same_python_name"] = pa[0] == pa[1]
         if fate in ("crashed", "broken"):
             v.violation(feats, f"pair_{fate}", o)
         elif fate == "merged":
             v.violation(feats, "silently_merged", o)
-        sn, tr, rs = {"fields": (snake, True, True), "input": (snake, True, True), "ops": (True, False, False), "enum": (False, False, False),
-                      "variables": (snake, False, False), "enum_default": (False, False, False)}[scope]
-        if scope in ("enum", "enum_default"):
+        if pa is None:
             continue        # enum members are not mapped by process_name (keyword suffix only): judged by fate alone
-        pa = json.loads(run_py(["-c", f"import json; from ariadne_codegen.utils import process_name as p; print(json.dumps([p({a!r}, convert_to_snake_case={sn}, trim_leading_underscore={tr}, handle_pydantic_resrved_field_names={rs}), p({b!r}, convert_to_snake_case={sn}, trim_leading_underscore={tr}, handle_pydantic_resrved_field_names={rs})]))"]).stdout.strip().splitlines()[-1])
         traces.append([{"e": "case", "name": chars(a), "snake": sn, "trim": tr, "res": rs}, {"e": "map", "py": chars(pa[0])},
                        {"e": "plant", "other": chars(b), "py_other": chars(pa[1]), "fate": fate if fate in ("distinct", "refused", "merged") else "merged"}])
         owners.append(feats)
